@@ -131,6 +131,8 @@ def repo_pythonpath():
 
 
 def ensure_repo_on_path():
+    import logging
+    logging.disable(logging.CRITICAL)     # the code under test logs expected conditions
     p = repo_pythonpath()
     if p not in sys.path:
         sys.path.insert(0, p)
